@@ -126,7 +126,7 @@ def write_tree(case, root):
         else:
             data = '<?xml version="1.0"?>\n<html><body><p>other vocabulary</p></body></html>\n'
         if data is not None:
-            with open(path, "w") as fh:
+            with open(path, "w", encoding="utf-8") as fh:
                 fh.write(data)
         out.append((path, f))
     return indir, out
